@@ -1,4 +1,5 @@
 import AwsVerif.Proofs.C12.Basic
+import AwsVerif.Proofs.C12.GenBridge
 set_option linter.unusedSimpArgs false
 /-! `aws_byte_cursor_split_on_char` and `aws_byte_cursor_trim_pred`: exact results. -/
 namespace AwsVerif.Xml
